@@ -46,7 +46,7 @@ PROFILE = {
     "max_delay_ticks": 4,
     "multi_call": (2, 8),
 }
-POLICY_ENTRIES = [f"{a}Policy{v}.{m}" for a in ("", "Async") for v in ("", ".noretry") for m in ("call", "execute")]
+POLICY_ENTRIES = [f"{a}Policy{v}.{m}" for a in ("", "Async") for v in ("", ".noretry") for m in ("call", "execute")] + ["Policy.context.call", "AsyncPolicy.context.call"]
 
 
 @st.composite
